@@ -168,7 +168,12 @@ class Report(object):
             print('VIOLATION property=%s replay=%s' % (self.pid, path))
             print('  clause=%s %s' % (v['clause'], v['what']))
         if nviol > 25:
-            print('  ... %d further distinct violations not written' % (nviol - 25))
+            print('  ... %d further distinct violations not written; all of them by clause:' % (nviol - 25))
+            by = {}
+            for v in unknown:
+                by.setdefault(v['clause'], []).append(str(v['key']))
+            for c, ks in sorted(by.items()):
+                print('  %5d x %s e.g. %s' % (len(ks), c, '; '.join(sorted(set(ks))[:6])[:400]))
         self._write_evidence(len(unknown), reported_known)
         sys.stdout.flush()
         return 1 if unknown else 0
